@@ -42,6 +42,9 @@ func (p *Program) verifyFunctionOpt(f *ssa.Function, ct *Contract, sweep, refute
 		}
 	}()
 	st := newState()
+	for _, k := range p.heapKeyUniverse() {
+		st.heapGet(k)
+	}
 	var args []Value
 	env := map[string]SVal{}
 	for _, prm := range f.Params {
@@ -179,7 +182,7 @@ func (p *Program) verifyFunctionOpt(f *ssa.Function, ct *Contract, sweep, refute
 			}
 			// ghost frame: a scalar ghost variable the contract does not list under assigns must be left unchanged,
 			// because callers that use this contract keep its value across the call
-			if !ct.Inline && !ct.Lib {
+			if (!ct.Inline || ct.UsedModular) && !ct.Lib {
 				star := false
 				listed := map[string]bool{}
 				for _, a := range ct.Assigns {
@@ -284,6 +287,8 @@ type solverSpec struct {
 	args func(file string, timeout int) []string
 }
 
+const wallFactor = 8
+
 var solvers = []solverSpec{
 	{"z3-new", func(f string, t int) []string { return []string{"z3-new", fmt.Sprintf("-T:%d", t), f} }},
 	{"z3", func(f string, t int) []string { return []string{"z3", fmt.Sprintf("-T:%d", t), f} }},
@@ -293,7 +298,13 @@ var solvers = []solverSpec{
 	{"cvc5-enum", func(f string, t int) []string {
 		return []string{"cvc5", "--lang=smt2", "--enum-inst", fmt.Sprintf("--tlimit=%d", t*1000), f}
 	}},
+	{"z3-new/seed1", func(f string, t int) []string {
+		return []string{"z3-new", fmt.Sprintf("-T:%d", t), "smt.random_seed=1", "sat.random_seed=1", f}
+	}},
 }
+
+// portfolio raced on the cone-of-influence query (quantifier-heavy goals vary a lot between solvers and between seeds)
+var relevantPortfolio = []int{0, 2, 3, 4}
 
 func runSolver(s solverSpec, file string, timeout int) (verdict, output string, secs float64) {
 	return runSolverCtx(context.Background(), s, file, timeout)
@@ -301,12 +312,21 @@ func runSolver(s solverSpec, file string, timeout int) (verdict, output string, 
 
 func runSolverCtx(ctx context.Context, s solverSpec, file string, timeout int) (verdict, output string, secs float64) {
 	t0 := time.Now()
-	a := s.args(file, timeout)
+	// the time limit is CPU time of the solver process (RLIMIT_CPU through prlimit), so that verdicts do not depend on how
+	// loaded the machine is; the solver's own wall-clock limit is a generous backstop
+	a := s.args(file, timeout*wallFactor)
+	a = append([]string{"prlimit", fmt.Sprintf("--cpu=%d", timeout)}, a...)
 	cmd := exec.CommandContext(ctx, a[0], a[1:]...)
-	out, _ := cmd.CombinedOutput()
+	out, runErr := cmd.CombinedOutput()
 	secs = time.Since(t0).Seconds()
+	if cmd.ProcessState != nil {
+		secs = (cmd.ProcessState.UserTime() + cmd.ProcessState.SystemTime()).Seconds()
+	}
 	output = string(out)
 	verdict = ""
+	if ee, ok := runErr.(*exec.ExitError); ok && !ee.Exited() && !strings.Contains(output, "sat") {
+		return "timeout", output + "\n(cpu limit reached)", secs
+	}
 	if strings.Contains(output, "(error") {
 		return "error", output, secs
 	}
@@ -556,7 +576,7 @@ func solveOne(o *Obligation, file string, timeout int, thorough bool) {
 		}
 		return false
 	}
-	if stage(file+".ag", "antecedent-refuted/ground", 3) || stage(file+".ar", "antecedent-refuted", 5) || stage(file+".g", "ground", 3) || stage(file+".r", "relevant", timeout) {
+	if stage(file+".ag", "antecedent-refuted/ground", 3) || stage(file+".ar", "antecedent-refuted", 5) || stage(file+".g", "ground", 3) {
 		o.Status = "discharged"
 		o.Output = strings.Join(log, "\n")
 		return
@@ -565,40 +585,56 @@ func solveOne(o *Obligation, file string, timeout int, thorough bool) {
 		name, v, out string
 		secs       float64
 	}
-	ch := make(chan res, len(solvers))
-	ctx, cancel := context.WithCancel(context.Background())
-	defer cancel()
-	for _, s := range solvers {
-		go func(s solverSpec) {
-			v, out, secs := runSolverCtx(ctx, s, file, timeout)
-			ch <- res{s.name, v, out, secs}
-		}(s)
-	}
-	unsat, sat := 0, 0
-	for range solvers {
-		r := <-ch
-		if (unsat > 0 || sat > 0) && !thorough {
-			break // a definite answer is in: the others are stopped
+	// race: first definite answer wins (thorough: every solver is heard)
+	race := func(f, label string, which []int) (unsat, sat int) {
+		ch := make(chan res, len(which))
+		ctx, cancel := context.WithCancel(context.Background())
+		defer cancel()
+		for _, i := range which {
+			go func(s solverSpec) {
+				v, out, secs := runSolverCtx(ctx, s, f, timeout)
+				ch <- res{s.name, v, out, secs}
+			}(solvers[i])
 		}
-		o.Time += r.secs
-		log = append(log, fmt.Sprintf("%s: %s (%.2fs)", r.name, r.v, r.secs))
-		if r.v == "error" {
-			log = append(log, firstLines(r.out, 6))
-		}
-		if r.v == "unsat" {
-			unsat++
-			if o.Solver == "" {
+		for range which {
+			r := <-ch
+			if (unsat > 0 || sat > 0) && !thorough {
+				break // a definite answer is in: the others are stopped
+			}
+			o.Time += r.secs
+			log = append(log, fmt.Sprintf("%s%s: %s (%.2fs)", r.name, label, r.v, r.secs))
+			if r.v == "error" {
+				log = append(log, firstLines(r.out, 6))
+			}
+			if r.v == "unsat" {
+				unsat++
+				if o.Solver == "" {
+					o.Solver = r.name + strings.TrimSuffix(strings.Replace(label, " (", "/", 1), ")")
+				}
+			}
+			if r.v == "sat" {
+				sat++
 				o.Solver = r.name
 			}
+			if (unsat > 0 || sat > 0) && !thorough {
+				cancel()
+			}
 		}
-		if r.v == "sat" {
-			sat++
-			o.Solver = r.name
-		}
-		if (unsat > 0 || sat > 0) && !thorough {
-			cancel()
+		return
+	}
+	if _, err := os.Stat(file + ".r"); err == nil {
+		// an unsat answer on the cone of influence is an unsat answer of the full query (a sat answer is not)
+		if u, _ := race(file+".r", " (relevant)", relevantPortfolio); u > 0 {
+			o.Status = "discharged"
+			o.Output = strings.Join(log, "\n")
+			return
 		}
 	}
+	all := make([]int, len(solvers))
+	for i := range all {
+		all[i] = i
+	}
+	unsat, sat := race(file, "", all)
 	switch {
 	case sat > 0:
 		o.Status = "failed"
